@@ -281,14 +281,24 @@ func (s *Store) LoadCheckpoint() error {
 		// For a new job, check the file store for first (latest) snapshot file.
 		// Checkpoint IDs are encoded so that files will be in reverse chronological
 		// order.
+		// Pick the snapshot file with the highest checkpoint id. The listing
+		// order cannot be relied on: base64 file name segments do not sort in
+		// id order.
 		var latestCheckpointFile string
+		var latestID uint64
 		for filePath, err := range s.fileStore.List() {
 			if err != nil {
 				return err
 			}
-			if filepath.Ext(filePath) == ".snapshot" {
-				latestCheckpointFile = filePath
-				break
+			if filepath.Ext(filePath) != ".snapshot" {
+				continue
+			}
+			id, ok := idFromSnapshotFileName(filepath.Base(filePath))
+			if !ok {
+				continue
+			}
+			if latestCheckpointFile == "" || id > latestID {
+				latestCheckpointFile, latestID = filePath, id
 			}
 		}
 
